@@ -5,6 +5,7 @@
 package h_scn
 
 import (
+	"reflect"
 	"context"
 	"encoding/json"
 	"fmt"
@@ -38,6 +39,7 @@ func initPlugins() {
 		coreimport.Import(memfs)
 		phttpimport.Import(memfs)
 		grpcimport.Import(memfs)
+		_ = afero.WriteFile(memfs, "/shop.json", []byte(`{"users":[{"user_id":71},{"user_id":72},{"user_id":73}]}`), 0o644)
 		_ = afero.WriteFile(memfs, "/users.csv", []byte("user_id,name\n11,a\n12,b\n13,c\n14,d\n15,e\n"), 0o644)
 	})
 }
@@ -74,13 +76,19 @@ type Cell struct {
 	Devs      []Dev    `json:"devs,omitempty"`
 	W1        int      `json:"w1,omitempty"`
 	W2        int      `json:"w2,omitempty"`
+	Third     bool     `json:"third,omitempty"` // weights mode: a third scenario s3 with weight W3
+	W3        int      `json:"w3,omitempty"`
 	Instances int      `json:"instances"`
 	Shots     int      `json:"shots"`
 	Bound     int      `json:"bound"`
 }
 
 func (c Cell) Name() string {
-	return fmt.Sprintf("%s|%v|minwait=%d|devs=%v|w=%d,%d|inst=%d|shots=%d", c.Mode, c.Program, c.MinWait, c.Devs, c.W1, c.W2, c.Instances, c.Shots)
+	w3 := ""
+	if c.Third {
+		w3 = fmt.Sprintf(",%d", c.W3)
+	}
+	return fmt.Sprintf("%s|%v|minwait=%d|devs=%v|w=%d,%d%s|inst=%d|shots=%d", c.Mode, c.Program, c.MinWait, c.Devs, c.W1, c.W2, w3, c.Instances, c.Shots)
 }
 
 func (c Cell) yaml() string {
@@ -92,6 +100,9 @@ func (c Cell) yaml() string {
     fields: [user_id, name]
     ignore_first_line: true
     delimiter: ','
+  - name: shop
+    type: file/json
+    file: /shop.json
 requests:
   - name: a
     method: POST
@@ -114,11 +125,19 @@ requests:
     postprocessors:
       - type: assert/response
         size: {val: 3, op: ">"}
+  - name: d
+    method: POST
+    uri: /d
+    body: '{"u": {{.request.d.preprocessor.uid}}, "v": {{.request.d.preprocessor.vid}}}'
+    preprocessor: {mapping: {uid: "source.users[next].user_id", vid: "source.shop.users[next].user_id"}}
 scenarios:
 `)
 	prog := c.Program
 	if c.Mode != "exec" {
 		prog = []string{"a"}
+	}
+	if c.Mode == "next2" {
+		prog = []string{"d"}
 	}
 	q := make([]string, len(prog))
 	for i, p := range prog {
@@ -135,6 +154,12 @@ scenarios:
 		sb.WriteString("  - name: s2\n    requests: [\"c\"]\n")
 		if c.W2 > 0 {
 			fmt.Fprintf(&sb, "    weight: %d\n", c.W2)
+		}
+		if c.Third {
+			sb.WriteString("  - name: s3\n    requests: [\"c\", \"c\"]\n")
+			if c.W3 > 0 {
+				fmt.Fprintf(&sb, "    weight: %d\n", c.W3)
+			}
 		}
 	}
 	return sb.String()
@@ -339,6 +364,8 @@ func (r *run) check(end, msg string) error {
 		return r.checkWeights()
 	case "next":
 		return r.checkNext()
+	case "next2":
+		return r.checkNext2()
 	}
 	return nil
 }
@@ -423,12 +450,20 @@ func (r *run) checkWeights() error {
 		w2 = 1
 	}
 	g := gcd(w1, w2)
+	w3 := 0
+	if c.Third {
+		w3 = c.W3
+		if w3 == 0 {
+			w3 = 1
+		}
+		g = gcd(g, w3)
+	}
 	cnt := map[string]int{}
 	for _, s := range w.Shots {
 		cnt[s.Scenario]++
 	}
-	if cnt["s1"] != w1/g || cnt["s2"] != w2/g {
-		return fmt.Errorf("WEIGHTS: one pass delivered s1 x%d, s2 x%d; weights %d:%d give %d:%d", cnt["s1"], cnt["s2"], w1, w2, w1/g, w2/g)
+	if cnt["s1"] != w1/g || cnt["s2"] != w2/g || cnt["s3"] != w3/g {
+		return fmt.Errorf("WEIGHTS: one pass delivered s1 x%d, s2 x%d, s3 x%d; weights %d:%d:%d give %d:%d:%d", cnt["s1"], cnt["s2"], cnt["s3"], w1, w2, w3, w1/g, w2/g, w3/g)
 	}
 	return nil
 }
@@ -460,6 +495,43 @@ func (r *run) checkNext() error {
 		if gotRows[k] != v {
 			return fmt.Errorf("NEXT: rows used by %d shots of %d instances: %v; consecutive round-robin rows would be used %v times each", c.Shots, c.Instances, gotRows, wantRows)
 		}
+	}
+	return nil
+}
+
+// two [next] paths in one request ending in the same indexed segment name under different parents:
+// each path has a cursor of its own, so shot k (in delivery order, for one instance) uses row k of
+// the 5-row source and row k of the 3-row source; with several instances the multisets are fixed.
+func (r *run) checkNext2() error {
+	w, c := r.w, r.cell
+	var us, vs_ []int
+	for _, s := range w.Sent {
+		var u, v int
+		if _, err := fmt.Sscanf(s.Body, `{"u": %d, "v": %d}`, &u, &v); err != nil {
+			return fmt.Errorf("RENDER: body %q", s.Body)
+		}
+		us, vs_ = append(us, u), append(vs_, v)
+	}
+	if len(us) != c.Shots {
+		return fmt.Errorf("SHOTS: %d requests for %d shots", len(us), c.Shots)
+	}
+	if c.Instances == 1 {
+		for k := range us {
+			if us[k] != 11+k%nUsers || vs_[k] != 71+k%3 {
+				return fmt.Errorf("NEXT: shot %d rendered rows u=%d v=%d; each [next] path advances on its own, so it must be u=%d v=%d (all: %v %v)", k+1, us[k], vs_[k], 11+k%nUsers, 71+k%3, us, vs_)
+			}
+		}
+		return nil
+	}
+	gu, gv, wu, wv := map[int]int{}, map[int]int{}, map[int]int{}, map[int]int{}
+	for k := range us {
+		gu[us[k]]++
+		gv[vs_[k]]++
+		wu[11+k%nUsers]++
+		wv[71+k%3]++
+	}
+	if !reflect.DeepEqual(gu, wu) || !reflect.DeepEqual(gv, wv) {
+		return fmt.Errorf("NEXT: rows used by %d shots of %d instances: users %v shop.users %v; consecutive round-robin rows per path would be %v and %v", c.Shots, c.Instances, gu, gv, wu, wv)
 	}
 	return nil
 }
@@ -521,6 +593,23 @@ func allCells(thorough bool) []Cell {
 	for _, w1 := range []int{0, 1, 2, 3, 4, 6} {
 		for _, w2 := range []int{0, 1, 2, 3, 4, 6} {
 			out = append(out, Cell{Mode: "weights", W1: w1, W2: w2, Instances: 1})
+		}
+	}
+	ws := []int{0, 1, 2, 3, 4, 6}
+	if thorough {
+		ws = []int{0, 1, 2, 3, 4, 5, 6, 9, 10}
+	}
+	for _, w1 := range ws {
+		for _, w2 := range ws {
+			for _, w3 := range ws {
+				out = append(out, Cell{Mode: "weights", W1: w1, W2: w2, Third: true, W3: w3, Instances: 1})
+			}
+		}
+	}
+	for _, shots := range []int{1, 2, 4, 7} {
+		out = append(out, Cell{Mode: "next2", Instances: 1, Shots: shots})
+		if shots > 1 {
+			out = append(out, Cell{Mode: "next2", Instances: 2, Shots: shots, Bound: 1})
 		}
 	}
 	for _, shots := range []int{2, 3, 4, 7} {
